@@ -84,10 +84,29 @@ fn main() {
         t0: Instant::now(),
         only_cfg,
     };
-    let code = match args[1].as_str() {
+    let run = std::panic::catch_unwind(std::panic::AssertUnwindSafe(|| match args[1].as_str() {
         "check" => props::run_check(&ctx, &args[2]),
         "replay" => props::run_replay(&ctx, &args[2]),
         _ => usage(),
+    }));
+    let code = match run {
+        Ok(c) => c,
+        Err(_) => {
+            // the run itself unwound: a library panic that escaped every guard is still a finding
+            // (no operation may panic); a panic in harness code is a machinery failure
+            let m = api::LAST_UNGUARDED_PANIC.lock().unwrap().clone().unwrap_or_default();
+            if m.contains("/repo/src/") && args[1] == "check" {
+                let _ = std::fs::create_dir_all("/verif/replays");
+                let path = format!("/verif/replays/{}-library-panic.json", args[2]);
+                let _ = std::fs::write(&path, serde_json::json!({"engine": "main", "summary": "the library panicked in a call the harness makes outside its guards (setup or observation)", "panic": m}).to_string());
+                println!("VIOLATION property={} replay={}", args[2], path);
+                println!("  signature: library-panic-outside-guard|{}", m.split(" @ ").last().unwrap_or(""));
+                1
+            } else {
+                eprintln!("MACHINERY: the harness panicked: {}", m);
+                2
+            }
+        }
     };
     config::scratch_cleanup(true);
     std::process::exit(code);
